@@ -18,3 +18,13 @@ ORDER_FIELDS = {
     'same-symbol-exchange': "o['symbol'] == symbol and o['exchange'] == exchange",
 }
 MUSTFAIL = "liq == entry"
+
+# the liquidation price is a function of the CURRENT average entry price (also after the entry was averaged)
+LIQ_FORMULA = {
+    'long': "liq == entry * (1 - 1 / L + 0.004)",
+    'short': "liq == entry * (1 + 1 / L - 0.004)",
+}
+BANKR_FORMULA = {
+    'long': "bankr == entry * (1 - 1 / L)",
+    'short': "bankr == entry * (1 + 1 / L)",
+}
